@@ -39,6 +39,10 @@
 //   - pom.xml: a property may only change where it is in effect for a targeted dependency (own
 //     profile first, then project level child -> parent -> grandparent); which of several
 //     equivalent places is patched is otherwise free.
+//   - pom.xml: a requirement that is not in the file ("added" update, origin management) must show up
+//     in Read(output).Requirements() as a managed requirement at the requested version; it may be
+//     inserted into the existing project-level <dependencyManagement><dependencies> or arrive in an
+//     appended <dependencyManagement> block; position among siblings and surrounding whitespace free.
 //   - Updates to the <parent> reference itself are not generated (a local parent with a
 //     changed version is no longer found locally; re-reading would need the network).
 //   - Documents in which one groupId:artifactId:type:classifier is declared in two places, dependencies
@@ -91,6 +95,9 @@ type updSpec struct {
 	ArtifactType string `json:"artifactType,omitempty"` // maven <type> when not jar
 	Classifier   string `json:"classifier,omitempty"`   // maven <classifier>
 	To           string `json:"to"`
+	// Add: the requirement is NOT in the manifest and has to be added to the project's
+	// dependencyManagement (the way override patches for transitive dependencies arrive).
+	Add bool `json:"add,omitempty"`
 }
 
 // caseSpec is one self-contained case: files, the manifest to read, the updates.
@@ -178,7 +185,7 @@ func caseKey(cs *caseSpec) string {
 		fmt.Fprintf(h, "%s\x00%s\x00", p, cs.Files[p])
 	}
 	for _, u := range cs.Updates {
-		fmt.Fprintf(h, "%s\x01%s\x01%s\x01%s\x01%s\x02", u.Name, u.KnownAs, u.ArtifactType, u.Classifier, u.To)
+		fmt.Fprintf(h, "%s\x01%s\x01%s\x01%s\x01%s\x01%v\x02", u.Name, u.KnownAs, u.ArtifactType, u.Classifier, u.To, u.Add)
 	}
 	return hex.EncodeToString(h.Sum(nil)[:12])
 }
@@ -292,6 +299,9 @@ func fmtUpdates(us []updSpec) string {
 		}
 		if u.ArtifactType != "" || u.Classifier != "" {
 			n += "|" + u.ArtifactType + "|" + u.Classifier
+		}
+		if u.Add {
+			n = "+" + n
 		}
 		p = append(p, n+"->"+u.To)
 	}
